@@ -123,7 +123,9 @@ func (P) Gen(rng *sim.Rng, tier string) *harness.Case {
 	var ticks []uint64
 	if rng.Chance(0.4) {
 		for i, n := 0, rng.Range(2, 12); i < n; i++ {
-			ticks = append(ticks, []uint64{1, 250, 499, 500, 501, 1000, 2000, 10000}[rng.Intn(8)]*1e6)
+			// (10 s is the cycle of the resource statistic: a caller that read the time a whole cycle ago meets, in
+			// the slot it selects, a bucket of the next cycle)
+			ticks = append(ticks, []uint64{1, 250, 499, 500, 501, 1000, 2000, 10000, 10000, 10000, 10000, 20000}[rng.Intn(12)]*1e6)
 		}
 	}
 	c.Sched = harness.GenSched(rng, ticks, 800*k)
